@@ -5,7 +5,7 @@ from ..ref import P, L, to32, le
 
 REQUIRED = ['dec:valid', 'dec:noncanon-s+p', 'dec:bit255', 'dec:negative-s', 'dec:reject-nonsquare', 'dec:reject-negt',
             'dec:accept', 'dec:reject', 'rep:coset', 'map:corner', 'map:random', 'batch:n=0', 'batch:n=1', 'batch:torsion',
-            'order', 'history', 'distinct', 'identity-reps']
+            'order', 'history', 'distinct', 'identity-reps', 'history:scalarmul', 'dec:group-trait']
 
 
 def B(x):
@@ -47,10 +47,12 @@ def decoder_sweep(ctx, n):
         m = ref.ristretto_decode(enc)
         if m is None:
             ctx.add('rs.decompress', enc.hex(), expect=['none'], cls=['dec:' + c, 'dec:reject', classify_reject(enc)])
+            ctx.add('gp.rs_frombytes', enc.hex(), expect=['none', 'none'], cls=['dec:group-trait', 'dec:reject'])
         else:
             # re-encoding returns the input bytes
             ctx.add('rs.decompress', enc.hex(), expect=pts.both(pts.tok_is(0, enc.hex()), pts.expect_rs(m)),
                     cls=['dec:' + c, 'dec:accept'])
+            ctx.add('gp.rs_frombytes', enc.hex(), expect=['some', enc.hex(), 'some', enc.hex()], cls=['dec:group-trait', 'dec:accept'])
     for ln in (0, 1, 31, 32, 33, 64):
         b = vals.rb(rng, ln)
         if ln == 32:
@@ -182,8 +184,36 @@ def histories(ctx, n, steps):
             regs.append(('e' + p.tok(), p.affine(), p.a))
         for _s in range(steps):
             (tp, ap, ea), (tq, aq, eb) = rng.choice(regs), rng.choice(regs)
-            op = rng.choice(['add', 'sub', 'neg', 'eq', 'sum', 'roundtrip', 'addassign', 'subassign', 'csel', 'cassign', 'cswap', 'cneg'])
-            if op in ('add', 'addassign'):
+            op = rng.choice(['add', 'sub', 'neg', 'eq', 'sum', 'roundtrip', 'addassign', 'subassign', 'csel', 'cassign', 'cswap', 'cneg',
+                             'mul', 'mulbase', 'dsm', 'msm'])
+            if op == 'mul':
+                k = rng.choice([0, 1, 2, L - 1, rng.randrange(L), rng.randrange(1 << 20)])
+                aff = vals.Pt(ea * k % L, 0).affine()
+                enc = ref.ristretto_encode(aff).hex()
+                rid = ctx.add('rs.mul', tp, cs(k), expect=pts.both(pts.expect_rs(aff), pts.tok_is(2, enc), pts.tok_is(3, enc)),
+                              cls=['history', 'history:scalarmul'])
+                regs.append((ctx.ref(rid, 1), aff, ea * k % L))
+            elif op == 'mulbase':
+                k = rng.choice([0, 1, L - 1, rng.randrange(L)])
+                aff = vals.Pt(k, 0).affine()
+                rid = ctx.add('rs.mulbase', cs(k), expect=pts.expect_rs(aff), cls=['history', 'history:scalarmul'])
+                regs.append((ctx.ref(rid, 1), aff, k))
+            elif op == 'dsm':
+                k1, k2 = rng.choice([0, 1, rng.randrange(L)]), rng.choice([0, 1, rng.randrange(L)])
+                e = (ea * k1 + k2) % L
+                aff = vals.Pt(e, 0).affine()
+                rid = ctx.add('rs.dsm', cs(k1), tp, cs(k2), expect=pts.expect_rs(aff), cls=['history', 'history:scalarmul'])
+                regs.append((ctx.ref(rid, 1), aff, e))
+            elif op == 'msm':
+                n_ = rng.choice([0, 1, 2, 3])
+                its = [rng.choice(regs) for _ in range(n_)]
+                ks = [rng.choice([0, 1, L - 1, rng.randrange(L)]) for _ in range(n_)]
+                e = sum(k * it[2] for k, it in zip(ks, its)) % L
+                aff = vals.Pt(e, 0).affine()
+                rid = ctx.add(rng.choice(['rs.msm', 'rs.vmsm']), lst([cs(k) for k in ks]), lst([it[0] for it in its]),
+                              expect=pts.expect_rs(aff), cls=['history', 'history:scalarmul'])
+                regs.append((ctx.ref(rid, 1), aff, e))
+            elif op in ('add', 'addassign'):
                 aff = ref.aff_add(ap, aq)
                 rid = ctx.add('rs.' + op, tp, tq, expect=pts.expect_rs(aff), cls='history')
                 regs.append((ctx.ref(rid, 1), aff, (ea + eb) % L))
